@@ -18,7 +18,7 @@ SHARD_TIMEOUT = {"quick": 900, "thorough": 3400}
 MIX = {"single:small": 3, "single:general": 2, "single:hostile": 2, "joint:joint": 1}
 PROPS = ("C05",)
 SIZES = [(1, 1), (2, 1), (5, 5), (12, 3), (40, 10), (100, 10), (200, 10)]
-SCALES = [1e-7, 1e-3, 1.0, 1e3, 1e7]
+SCALES = [1e-12, 1e-7, 1e-3, 1.0, 1e3, 1e7, 1e12]
 LAYOUTS = ["C", "F", "strided", "readonly"]
 
 
@@ -123,6 +123,28 @@ def run_synth_case(res, d):
         res.count("point_calls_checked")
     if not np.array_equal(np.asarray(X), Xc):
         res.violation("likelihood table function modified the data", d)
+    # history: the same state object is given new MRFs (as the next round's optimisation does) and scored again
+    if d.get("rescore"):
+        rng2 = np.random.default_rng(d["rng"] + [3])
+        factor = float(rng2.choice([1e-3, 0.5, 2.0, 1e3]))
+        ths2 = []
+        for k, c in enumerate(st.clusters):
+            A = rng2.normal(size=(nw, nw)) / math.sqrt(nw)
+            t2 = (A @ A.T + 0.1 * np.eye(nw)) * d["scale"] * factor
+            c.train_inverse = (t2 + t2.T) / 2
+            ths2.append(np.array(c.train_inverse, copy=True))
+        try:
+            tab2 = np.asarray(lk.all_points_all_clusters_log_likelihood(st, X))
+            ref2 = gauss.gauss_table(Xc, mus, ths2)
+            bound2 = gauss.table_bound(Xc, mus, ths2)
+            if all(np.linalg.cond(t) < 1e10 for t in ths2):
+                if tab2.shape != ref2.shape or not np.all(np.isfinite(tab2)) or np.any(np.abs(tab2 - ref2) > bound2):
+                    res.violation("second scoring of the same state after its MRFs were replaced: table deviates from the Gaussian log-density of the "
+                                  "current MRFs by %.3g (stale cached quantity?) NW=%d" % (float(np.nanmax(np.abs(tab2 - ref2))), nw), d)
+                res.count("rescored_tables")
+        except Exception as e:
+            res.violation("second scoring raised %s: %s" % (type(e).__name__, str(e)[:200]), d)
+        ths = ths2
     for k, c in enumerate(st.clusters):
         if not np.array_equal(c.train_inverse, ths[k]) or not np.array_equal(c.stacked_data_mean, mus[k]):
             res.violation("likelihood table function modified the model's MRF or mean", d)
@@ -142,7 +164,7 @@ def gen_desc(rng, spec, i):
     lay = LAYOUTS[int(rng.integers(0, 2 if jit else len(LAYOUTS)))]
     return dict(what="synth", rng=[int(v) for v in spec["seed"]] + [i], nw=nw, W=W, K=int(rng.integers(1, 5)), T=int(rng.integers(1, 25)),
                 scale=scale, spread=float(rng.choice([0.1, 1.0, 50.0])), layout=lay,
-                theta="toeplitz" if rng.random() < 0.25 else "dense", arb=(i % 5 == 0))
+                theta="toeplitz" if rng.random() < 0.25 else "dense", arb=(i % 5 == 0), rescore=(i % 3 == 0))
 
 
 def run_shard(spec, res):
@@ -176,6 +198,7 @@ def finalize(merged, tier):
     ec.min_counter(merged, out, "point_calls_checked", 300 if q else 3000)
     ec.min_counter(merged, out, "result_ll_entries_checked", 1500 if q else 15000)
     ec.min_counter(merged, out, "mpmath_arbitrations", 5 if q else 50)
+    ec.min_counter(merged, out, "rescored_tables", 40 if q else 400)
     ec.unexpected(merged, out)
     out["max_dev_over_bound"] = merged["counters"].get("max_dev_over_bound_x1000", 0) / 1000.0
     return out
